@@ -1,5 +1,6 @@
 import Rio.Model.Path
 import Rio.Proofs.Bytes
+import Rio.Proofs.PathTheory
 /-!
 # C18 — Path values are canonical and "goes up" is exact
 
@@ -98,5 +99,155 @@ theorem C18_string_inj (p q : RelPath) (hp : p.WF) (hq : q.WF) (h : p.str = q.st
   have := ls p hp
   have := ls q hq
   cases p; cases q; simp_all
+
+
+/-! ## Canonical values (deep half; proofs in `Rio/Proofs/PathTheory.lean`)
+
+`RelPath.Clean p` says `p = ofComps cs` for a clean component list `cs` (`..`s first, then normal
+components).  Every constructor lands in `Clean`, `Clean` values are equal iff they print identically,
+and the operations act on the component lists the obvious way.
+-/
+
+/-- canonical values satisfy the shallow well-formedness used by `C18_string_inj` -/
+theorem RelPath.Clean.wf {p : RelPath} (h : p.Clean) : p.WF := by
+  obtain ⟨cs, hc, rfl⟩ := h
+  by_cases h0 : cs = []
+  · left; subst h0; simp [ofComps]
+  · right
+    obtain ⟨f1, f2, f3, f4⟩ := render_facts hc h0
+    rw [ofComps_path h0, ofComps_lastSplit h0]
+    exact ⟨f1, f2, f4, f3, rfl⟩
+
+/-- **Parsing is canonical**: whatever string `MustRelPath` accepts, the value is canonical. -/
+theorem C18_parse_canonical (s : Bytes) (p : RelPath) (h : mustRel s = some p) : p.Clean :=
+  mustRel_clean s p h
+
+/-- `MustRelPath` panics exactly on strings starting with `/` -/
+theorem C18_parse_total (s : Bytes) : (mustRel s = none ↔ s.head? = some slash) := by
+  constructor
+  · intro h
+    by_cases hs : s.head? = some slash
+    · exact hs
+    · rw [mustRel_eq s hs] at h; cases h
+  · exact mustRel_rooted s
+
+/-- **Print then parse is the identity** on canonical values -/
+theorem C18_print_parse (p : RelPath) (h : p.Clean) : mustRel p.str = some p := by
+  obtain ⟨cs, hc, rfl⟩ := h
+  exact mustRel_str hc
+
+/-- **Canonical values compare equal iff they print identically.** -/
+theorem C18_canonical_eq (p q : RelPath) (hp : p.Clean) (hq : q.Clean) : p = q ↔ p.str = q.str :=
+  ⟨fun h => by rw [h], fun h => C18_string_inj p q hp.wf hq.wf h⟩
+
+/-- any two strings that clean to the same thing parse to equal values (hidden split index included) -/
+theorem C18_parse_eq (s t : Bytes) (p q : RelPath) (hs : mustRel s = some p) (ht : mustRel t = some q)
+    (h : goClean s = goClean t) : p = q := by
+  have a := mustRel_unfold s p hs
+  have b := mustRel_unfold t q ht
+  rw [h] at a
+  rw [← a, ← b]
+
+/-- **Join keeps values canonical** -/
+theorem C18_join_canonical (p q : RelPath) (hp : p.Clean) (hq : q.Clean) : (p.join q).Clean := by
+  obtain ⟨a, ha, rfl⟩ := hp
+  obtain ⟨b, hb, rfl⟩ := hq
+  rw [join_ofComps ha hb]
+  refine ⟨_, cleanComps_clean false _ ?_, rfl⟩
+  intro c hc
+  simp only [List.mem_append] at hc
+  rcases hc with hc | hc
+  · exact (cleanComps_mem ha c hc).2.2
+  · exact (cleanComps_mem hb c hc).2.2
+
+/-- **Join agrees with concatenate-then-clean**: joining is the same value as printing both sides, gluing
+    them with `/` and parsing the result. -/
+theorem C18_join (p q : RelPath) (hp : p.Clean) (hq : q.Clean) :
+    mustRel (p.str ++ slash :: q.str) = some (p.join q) := by
+  obtain ⟨a, ha, rfl⟩ := hp
+  obtain ⟨b, hb, rfl⟩ := hq
+  exact join_eq_parse_concat ha hb
+
+/-- **Dir keeps values canonical** -/
+theorem C18_dir_canonical (p : RelPath) (hp : p.Clean) : p.dir.Clean := by
+  obtain ⟨cs, hc, rfl⟩ := hp
+  by_cases h0 : cs = []
+  · subst h0; exact ⟨[], cleanComps_nil false, by simp [RelPath.dir, ofComps]⟩
+  · obtain ⟨init, l, rfl⟩ : ∃ init l, cs = init ++ [l] :=
+      ⟨cs.dropLast, cs.getLast h0, (List.dropLast_concat_getLast h0).symm⟩
+    rw [dir_snoc hc]
+    exact ⟨init, cleanComps_prefix hc, rfl⟩
+
+/-- **Dir and Last invert Join (1)**: a non-root canonical value is its parent joined with its last component. -/
+theorem C18_dir_last_join (p : RelPath) (hp : p.Clean) (hne : p.path ≠ []) :
+    p.dir.join (ofComps [p.last]) = p := by
+  obtain ⟨cs, hc, rfl⟩ := hp
+  have h0 : cs ≠ [] := fun e => hne (by simp [e, ofComps])
+  obtain ⟨init, l, rfl⟩ : ∃ init l, cs = init ++ [l] :=
+    ⟨cs.dropLast, cs.getLast h0, (List.dropLast_concat_getLast h0).symm⟩
+  rw [dir_snoc hc, last_snoc hc, join_ofComps (cleanComps_prefix hc) (cleanComps_suffix hc), cleanComps_id false _ hc]
+
+/-- **Dir and Last invert Join (2)**: joining a normal component onto a canonical value and taking `Dir` / `Last`
+    gives the two parts back. -/
+theorem C18_join_dir_last (p : RelPath) (c : Bytes) (hp : p.Clean) (hc : Normal c) :
+    (p.join (ofComps [c])).dir = p ∧ (p.join (ofComps [c])).last = c := by
+  obtain ⟨a, ha, rfl⟩ := hp
+  have hn : ∀ x ∈ [c], Normal x := by simpa using hc
+  have hb : CleanComps false [c] := ⟨[], [c], rfl, by simp, hn, by simp⟩
+  have hcl := cleanComps_append_normal ha hn
+  rw [join_ofComps ha hb, cleanComps_id false _ hcl]
+  exact ⟨dir_snoc hcl, last_snoc hcl⟩
+
+/-- **Split yields exactly the chain of ancestors**: for the value with components `cs`, `Split` is the list of
+    the values of all prefixes of `cs`, shortest (the root) first, the path itself last. -/
+theorem C18_split (cs : List Bytes) (h : CleanComps false cs) :
+    (ofComps cs).split = (List.range (cs.length + 1)).map (fun k => ofComps (cs.take k)) :=
+  split_ofComps h
+
+/-- … and consecutive elements of that chain are related by `Dir` -/
+theorem C18_split_dir (cs : List Bytes) (h : CleanComps false cs) (k : Nat) (hk : k < cs.length) :
+    (ofComps (cs.take (k + 1))).dir = ofComps (cs.take k) :=
+  dir_take h k hk
+
+/-- **GoesUp, on components**: a canonical value leaves its base iff its first component is `..` -/
+theorem C18_goesup_comps (cs : List Bytes) (h : CleanComps false cs) :
+    (ofComps cs).goesUp = true ↔ cs.head? = some dd :=
+  goesUp_ofComps h
+
+/-- joining never lets a path that stays inside escape: if neither side goes up and the right side is made of
+    normal components only, the join does not go up -/
+theorem C18_join_stays (p q : RelPath) (hp : p.Clean) (hq : q.Clean) (h1 : p.goesUp = false)
+    (h2 : q.path.head? ≠ some dot) : (p.join q).goesUp = false := by
+  obtain ⟨a, ha, rfl⟩ := hp
+  obtain ⟨b, hb, rfl⟩ := hq
+  by_cases hb0 : b = []
+  · subst hb0; simpa [RelPath.join, ofComps] using h1
+  · rw [ofComps_path hb0] at h2
+    have hn := all_normal_of_head hb hb0 h2
+    have hcl := cleanComps_append_normal ha hn
+    rw [join_ofComps ha hb, cleanComps_id false _ hcl]
+    cases hg : (ofComps (a ++ b)).goesUp with
+    | false => rfl
+    | true =>
+      exfalso
+      have h3 := (goesUp_ofComps hcl).1 hg
+      cases a with
+      | nil =>
+        simp only [List.nil_append] at h3
+        cases b with
+        | nil => exact hb0 rfl
+        | cons x xs =>
+          simp only [List.head?_cons, Option.some.injEq] at h3
+          exact dd_not_normal (h3 ▸ hn x (by simp))
+      | cons x xs =>
+        simp only [List.cons_append, List.head?_cons] at h3
+        have := (goesUp_ofComps ha).2 (by simpa using h3)
+        rw [this] at h1; cases h1
+
+/-- non-vacuity (tests): concrete canonical values and the operations on them -/
+example : mustRel [0x61, slash, dot, dot, slash, 0x62, slash, slash, 0x63] = some (ofComps [[0x62], [0x63]]) := by decide
+example : (ofComps [dd, [0x61]]).goesUp = true ∧ (ofComps [[dot, dot, 0x61]]).goesUp = false := by decide
+example : (ofComps [[0x61], [0x62], [0x63]]).split =
+    [ofComps [], ofComps [[0x61]], ofComps [[0x61], [0x62]], ofComps [[0x61], [0x62], [0x63]]] := by decide
 
 end Rio
